@@ -1,7 +1,8 @@
 """C16 Buffered and text stream wrappers are transparent to chunking.
 
 Buffered case = {"t": "buf", "data": bytes, "cuts": [positions], "kind": "byte"|"obj",
-                 "ops": [["recv", n] | ["exact", n] | ["until", delim, m] | ["feed", bytes]]}
+                 "ops": [["recv", n] | ["exact", n] | ["until", delim, m] | ["feed", bytes]
+                         | ["int", <one of the first three>, k, "cancel"|"error"]]}   (interrupted at its (k+1)-th wrapped receive)
 Text cases    = {"t": "textrecv", "text": str, "enc": e, "cuts": [...]}
                 {"t": "textpipe", "items": [str...], "enc": e, "rechunk": [...]}
 """
@@ -10,7 +11,8 @@ from __future__ import annotations
 import asyncio
 import itertools
 
-from anyio import (ClosedResourceError, DelimiterNotFound, EndOfStream, IncompleteRead,
+import anyio
+from anyio import (BrokenResourceError, CancelScope, ClosedResourceError, DelimiterNotFound, EndOfStream, IncompleteRead,
                    create_memory_object_stream)
 from anyio.abc import ByteReceiveStream, ObjectReceiveStream
 from anyio.streams.buffered import BufferedByteReceiveStream
@@ -50,6 +52,18 @@ def budget(tier):
 # ------------------------------------------------------------------ wrapped stream doubles
 
 
+async def _trip(src):
+    """Injected interruption of the wrapped receive: a one-off error, or cancellation of the caller's scope."""
+    t = getattr(src, "trip", None)
+    if t is not None and src.calls >= t[0]:
+        src.trip = None
+        src.tripped = True
+        if t[1] == "error":
+            raise BrokenResourceError
+        t[2].cancel()
+        await anyio.sleep(0)       # the cancellation lands here
+
+
 class ByteSrc(ByteReceiveStream):
     def __init__(self, chunks):
         self.chunks = list(chunks)
@@ -58,6 +72,7 @@ class ByteSrc(ByteReceiveStream):
 
     async def receive(self, max_bytes: int = 65536) -> bytes:
         self.calls += 1
+        await _trip(self)
         await asyncio.sleep(0)
         if not self.chunks:
             raise EndOfStream
@@ -86,6 +101,7 @@ class ObjSrc(ObjectReceiveStream):
 
     async def receive(self):
         self.calls += 1
+        await _trip(self)
         item = await self.inner.receive()
         self.handed.append(item)
         return item
@@ -116,6 +132,7 @@ async def run_buf(case, out):
     handed_out = bytearray()
     seen_wire = 0
     multi = False
+    interrupted = [0]
 
     def logical():
         nonlocal seen_wire
@@ -139,59 +156,82 @@ async def run_buf(case, out):
             return False
         return True
 
-    for op in case["ops"]:
-        calls0 = srcobj.calls
+    async def do_op(op):
+        nonlocal handed_out
         L0 = logical()
         rem = L0[len(handed_out):] + wire_rest()      # what a correct stream can still deliver, in order
+        name = op[0]
+        if name == "recv":
+            n = op[1]
+            try:
+                r = await stream.receive(n)
+            except EndOfStream:
+                if rem:
+                    out.bad("receive-eos-with-data", kind, f"{case!r}: EndOfStream with {rem!r} remaining")
+            else:
+                if not (1 <= len(r) <= n):
+                    out.bad("receive-size", kind, f"{case!r}: receive({n}) returned {len(r)} bytes")
+                handed_out += r
+        elif name == "exact":
+            n = op[1]
+            try:
+                r = await stream.receive_exactly(n)
+            except IncompleteRead:
+                if len(rem) >= n:
+                    out.bad("exactly-incomplete-but-available", kind, f"{case!r}: n={n} remaining={rem!r}")
+            else:
+                if len(r) != n:
+                    out.bad("exactly-size", kind, f"{case!r}: receive_exactly({n}) returned {r!r}")
+                if len(rem) < n:
+                    out.bad("exactly-invented", kind, f"{case!r}: only {len(rem)} bytes existed")
+                handed_out += r
+        elif name == "until":
+            d, m = op[1], op[2]
+            # 'rem' at call time; feeds cannot happen during the call
+            try:
+                r = await stream.receive_until(d, m)
+            except DelimiterNotFound:
+                if d in rem[:m]:
+                    out.bad("until-dnf-but-present", kind, f"{case!r}: {d!r} within first {m} of {rem!r}")
+            except IncompleteRead:
+                if d in rem:
+                    out.bad("until-incomplete-but-present", kind, f"{case!r}: {d!r} in {rem!r}")
+                if wire_rest():
+                    out.bad("until-incomplete-before-eos", kind, f"{case!r}")
+            else:
+                if d in r:
+                    out.bad("until-includes-delimiter", kind, f"{case!r}: returned {r!r}")
+                if (r + d).find(d) != len(r) or not rem.startswith(r + d):
+                    out.bad("until-not-first-occurrence", kind, f"{case!r}: returned {r!r} remainder {rem!r}")
+                handed_out += r + d
+
+    for op in case["ops"]:
+        calls0 = srcobj.calls
         name = op[0]
         try:
             if name == "feed":
                 stream.feed_data(op[1])
                 events.append(bytes(op[1]))
                 # fed bytes go behind the buffered ones but before unread wire bytes
-            elif name == "recv":
-                n = op[1]
-                try:
-                    r = await stream.receive(n)
-                except EndOfStream:
-                    if rem:
-                        out.bad("receive-eos-with-data", kind, f"{case!r}: EndOfStream with {rem!r} remaining")
-                else:
-                    if not (1 <= len(r) <= n):
-                        out.bad("receive-size", kind, f"{case!r}: receive({n}) returned {len(r)} bytes")
-                    handed_out += r
-            elif name == "exact":
-                n = op[1]
-                try:
-                    r = await stream.receive_exactly(n)
-                except IncompleteRead:
-                    if len(rem) >= n:
-                        out.bad("exactly-incomplete-but-available", kind, f"{case!r}: n={n} remaining={rem!r}")
-                else:
-                    if len(r) != n:
-                        out.bad("exactly-size", kind, f"{case!r}: receive_exactly({n}) returned {r!r}")
-                    if len(rem) < n:
-                        out.bad("exactly-invented", kind, f"{case!r}: only {len(rem)} bytes existed")
-                    handed_out += r
-            elif name == "until":
-                d, m = op[1], op[2]
-                # 'rem' at call time; feeds cannot happen during the call
-                try:
-                    r = await stream.receive_until(d, m)
-                except DelimiterNotFound:
-                    if d in rem[:m]:
-                        out.bad("until-dnf-but-present", kind, f"{case!r}: {d!r} within first {m} of {rem!r}")
-                except IncompleteRead:
-                    if d in rem:
-                        out.bad("until-incomplete-but-present", kind, f"{case!r}: {d!r} in {rem!r}")
-                    if wire_rest():
-                        out.bad("until-incomplete-before-eos", kind, f"{case!r}")
-                else:
-                    if d in r:
-                        out.bad("until-includes-delimiter", kind, f"{case!r}: returned {r!r}")
-                    if (r + d).find(d) != len(r) or not rem.startswith(r + d):
-                        out.bad("until-not-first-occurrence", kind, f"{case!r}: returned {r!r} remainder {rem!r}")
-                    handed_out += r + d
+            elif name == "int":
+                # the inner call is interrupted at its (k+1)-th wrapped receive, by a one-off error of the wrapped
+                # stream or by cancellation; whatever had arrived until then must stay available (the invariant
+                # below); if the call needs fewer wrapped receives it simply completes
+                inner, k, how = op[1], op[2], op[3]
+                name = "int:" + inner[0]
+                with CancelScope() as sc:
+                    srcobj.trip = (srcobj.calls + k + 1, how, sc)
+                    srcobj.tripped = False
+                    try:
+                        await do_op(inner)
+                    except BrokenResourceError:
+                        if not srcobj.tripped:
+                            raise
+                srcobj.trip = None
+                if srcobj.tripped:
+                    interrupted[0] += 1
+            else:
+                await do_op(op)
         except (ValueError, ClosedResourceError) as e:
             out.bad("unexpected-error", f"{name}:{type(e).__name__}", f"{case!r}: {e!r}")
         if srcobj.calls - calls0 >= 2:
@@ -311,6 +351,8 @@ def run_case(case) -> Outcome:
         if out.nontrivial and not multi:
             out.labels.append("chunk-boundary-inside-delimiter")
         out.labels.append("buf-" + case["kind"])
+        if any(op[0] == "int" for op in case["ops"]):
+            out.labels.append("interrupted-call-generated")
         if any(op[0] == "feed" for op in case["ops"]):
             out.labels.append("feed_data")
         if len(case["data"]) > 65536:
@@ -408,6 +450,12 @@ def _gen(g):
         ncuts = g.int(0, min(len(data), 6))
         cuts = sorted(g.int(1, len(data) - 1) for _ in range(ncuts))
         ops = [["until", A, g.int(0, 6)], ["until", B, 65536], ["until", A, 65536]]
+        if g.chance(40):
+            # variant: after the failed search bytes are consumed from the front by receive()/receive_exactly(), the
+            # buffer grows back through feed_data() with the delimiter early in it, then the search is retried
+            n = g.int(1, 5)
+            ops = [["until", A, g.int(0, 6)], [g.choice(["recv", "exact"]), n],
+                   ["feed", fill(g.int(0, max(0, n - len(A)))) + A + fill(g.int(0, 2))], ["until", A, 65536]]
         for _ in range(g.int(0, 3)):
             ops.append(g.choice([["until", A, 65536], ["until", B, g.choice([2, 65536])], ["recv", g.choice([1, 3, 64])],
                                  ["until", A, g.int(0, 4)], ["exact", g.int(0, 3)]]))
@@ -432,7 +480,14 @@ def _gen(g):
         ops = []
         delims = [bytes([alpha[0]]), alpha[:2], alpha[-2:], bytes([alpha[0]]) * 2 + alpha[1:2], alpha[-1:]]
         for _ in range(g.int(1, 8)):
-            k = g.weighted([(30, "recv"), (25, "exact"), (35, "until"), (10, "feed")])
+            k = g.weighted([(30, "recv"), (25, "exact"), (35, "until"), (10, "feed"), (12, "int")])
+            if k == "int":
+                ik = g.choice(["exact", "exact", "until", "recv"])
+                inner = (["exact", g.choice([2, 3, 5, 9, 12, 33])] if ik == "exact" else
+                         ["until", g.choice(delims), g.choice([6, 10, 50, 65536])] if ik == "until" else
+                         ["recv", g.choice([1, 3, 64])])
+                ops.append(["int", inner, g.int(0, 3), g.choice(["cancel", "error"])])
+                continue
             if k == "recv":
                 ops.append(["recv", g.choice([1, 2, 3, 7, 64, 65536, 70000])])
             elif k == "exact":
